@@ -405,8 +405,10 @@ def application_table(w):
     """apply_procedure on a user procedure (lambda FORMALS (define d D) B1 B2) closed over CENV, with k arguments.
     rows: (formals kind, k) -> dict"""
     rows = []
-    for kind, fixed, rest in (("fixed2", ["a", "b"], None), ("rest", ["a"], "r"), ("thunk", [], None), ("fixed2+procedure-definition", ["a", "b"], None)):
-        for k in (range(0, 4) if "+" not in kind else (2,)):
+    for kind, fixed, rest in (("fixed2", ["a", "b"], None), ("rest", ["a"], "r"), ("thunk", [], None), ("fixed2+procedure-definition", ["a", "b"], None),
+                              ("fixed1", ["a"], None), ("fixed3", ["a", "b", "c"], None), ("rest-only", [], "r"), ("fixed2-rest", ["a", "b"], "r"),
+                              ("fixed4", ["a", "b", "c", "e"], None)):
+        for k in (range(0, 4) if kind in ("fixed2", "rest", "thunk") else (2,) if "+" in kind else range(0, 6)):
             cenv = Frame(None, "closure-env")
             caller = Frame(None, "caller-env")
             d_marker, b1, b2 = w.sym("D"), w.sym("B1"), w.sym("B2")
@@ -445,7 +447,8 @@ def application_table(w):
                  "evals": [(e[0], e[1], e[2] is (frames[0][1] if frames else None)) for e in evals],
                  "order": [(e[0], e[1] if e[0] in ("eval", "tail") else (e[2] if e[0] == "define" else None)) for e in r.events
                            if e[0] in ("eval", "tail", "define", "new_child")],
-                 "args": args, "panics": [e for e in r.mc.events if e[0] == "panic"], "visited": set(r.mc.visited)}
+                 "args": args, "panics": [e for e in r.mc.events if e[0] == "panic"], "visited": set(r.mc.visited),
+                 "fixed": list(fixed), "rest": rest}
             if "+" in kind and frames:
                 d["bound_after"] = sorted(str(v_[0]) for v_ in frames[0][1].defs.d.values())
                 # names the frame binds to a procedure closed over that very frame: frame -> procedure -> frame
@@ -883,8 +886,26 @@ def rule_once(ctx, rule):
     t = tables(fb)
     w = t["w"]
     v = Verdict(ctx, rule, mir_where(w.ee))
-    for sc, d in t["call"]:
+    for n_extra in (0, 1, 2, 5):
+        if "call%d" % n_extra not in t:
+            t["call%d" % n_extra] = [r_ for r_ in call_table(w, n_extra) if r_[0] == "procedure"]
+    for sc, d, n in [(sc, d, 3) for sc, d in t["call"]] + [(sc, d, n_) for n_ in (0, 1, 2, 5) for sc, d in t["call%d" % n_]]:
         if sc != "procedure":
+            continue
+        names = ["A%d" % i for i in range(1, n + 1)]
+        if n != 3:
+            form = "(" + " ".join(["OP"] + names) + ")"
+            v.row("call/" + form, d, [
+                (sorted(d.get("evaluated", [])) == sorted(names + ["OP"]),
+                 "evaluating %s evaluates %s (the operator and each operand must be evaluated exactly once)" % (form, d.get("evaluated"))),
+                (d.get("envs_ok"), "operator/operands are evaluated in an environment other than the caller's"),
+                (d.get("applies") == 1, "the call applies a procedure %s times (expected once)" % d.get("applies")),
+                (d.get("applied_is_operator_value"), "what is applied is not the value of the operator expression"),
+                (d.get("apply_args") == names, "the procedure is applied to %s, expected the %d operand values in order" % (d.get("apply_args"), n)),
+                (d.get("apply_after_evals"), "the application happens before all operands are evaluated"),
+                (contains(d.get("result"), lambda x: isinstance(x, Tok) and x.kind == "result-of-apply"),
+                 "the value of the call is not the result of the application (%r)" % (d.get("result"),)),
+            ])
             continue
         v.row("call/(OP A1 A2 A3)", d, [
             (sorted(d.get("evaluated", [])) == ["A1", "A2", "A3", "OP"],
@@ -1027,12 +1048,24 @@ def chain_items(v, limit=20):
     return None
 
 
-def _expected_defines(kind, k, args):
+def _expected_defines(kind, k, args, fixed=None, rest=None):
+    if fixed is not None:
+        out = [(n, args[i]) for i, n in enumerate(fixed)]
+        if rest is not None:
+            out.append((rest, args[len(fixed):]))
+        return out
     if kind == "fixed2":
         return [("a", args[0]), ("b", args[1])]
     if kind == "rest":
         return [("a", args[0]), ("r", args[1:])]
     return []
+
+
+def _formals_text(d, kind):
+    if "fixed" not in d:
+        return {"fixed2": "two fixed", "rest": "one fixed and a rest", "thunk": "no"}[kind]
+    n = len(d["fixed"])
+    return ("%d fixed" % n if n else "no fixed") + (" and a rest" if d["rest"] is not None else "") if (n or d["rest"] is not None) else "no"
 
 
 def rule_application(ctx, rule, aspects):
@@ -1061,7 +1094,7 @@ def rule_application(ctx, rule, aspects):
             continue
         if "arity" in aspects:
             checks.append((accepted == d["accepts"], "a procedure with %s parameters applied to %d argument(s) is %s" % (
-                {"fixed2": "two fixed", "rest": "one fixed and a rest", "thunk": "no"}[kind], k,
+                _formals_text(d, kind), k,
                 "accepted" if accepted else "rejected (%r)" % (res,))))
             if not d["accepts"]:
                 checks.append((_err_kind(res, "ArgumentMissMatch"), "the wrong argument count yields %r, expected Err(ArgumentMissMatch)" % (res,)))
@@ -1070,7 +1103,7 @@ def rule_application(ctx, rule, aspects):
                 checks.append((not d["evals"] and all(x[0] for x in d["defines"]),
                                "a rejected application already evaluated a form of the procedure, or bound names outside a frame of its own"))
         if d["accepts"] and accepted:
-            exp = _expected_defines(kind, k, d["args"])
+            exp = _expected_defines(kind, k, d["args"], d.get("fixed"), d.get("rest"))
             got = d["defines"]
             if "frame" in aspects:
                 checks.append((d["frames"] == 1, "one application creates %d frames (expected exactly one)" % d["frames"]))
